@@ -81,6 +81,9 @@ def check(run):
     R.rule('C08.sockclosed', 'the handshake ends with the descriptor closed: _close_socket closes the socket on every path '
                              'on which one is present (a failing shutdown() included)', 2)
     C13.closes(R, RID='C08.sockclosed')
+    from . import C11 as _C11
+    with R.as_rule('C08.onlyclose'):
+        _C11.once(R)             # the Close frame close() builds is written then and there (send() -> exactly one write())
     C09.request_first(R, 'C08.onlyclose')      # a close() at Connected cannot put its Close frame in front of the request
     with R.as_rule('C08.timeout'):
         C15.units(R)             # the loop's wait is computed from poll alone: close_timeout=None / 0 cannot break it
